@@ -9,6 +9,7 @@ from mc import evidence, explore, harness as H, par, peer as P, report
 PID = 'C12'
 ALL_SIZES = [512, 768, 1024, 1536, 2048, 3072, 4096, 6144, 8192]
 QUICK_SIZES = [1024, 1536, 2048, 3072, 4096]
+LARGE_SETS = [(6144,), (8192,), (6144, 8192), (2048, 6144), (2048, 8192), (1024, 6144), (3072, 8192), (4096, 6144)]
 SHA1, SHA256 = 'diffie-hellman-group-exchange-sha1', 'diffie-hellman-group-exchange-sha256'
 OFFERS = {'sha1': [SHA1], 'sha256': [SHA256], 'both': [SHA256, SHA1]}
 BANNERS = {'openssh': b'SSH-2.0-OpenSSH_8.9p1 Ubuntu-3', 'other': b'SSH-2.0-dropbear_2022.83'}
@@ -196,6 +197,10 @@ def run(tier, seed):
     sizes = QUICK_SIZES if tier == 'quick' else ALL_SIZES
     tasks = [(sub, style, offer, banner) for sub in subsets(sizes) for style in (P.STRICT, P.ROUNDUP, P.OPENSSH)
              for offer in OFFERS for banner in BANNERS]
+    if tier == 'quick':
+        # servers whose smallest (or only other) modulus lies above every range the probe sequence asks for
+        tasks += [(sub, style, offer, banner) for sub in LARGE_SETS for style in (P.STRICT, P.ROUNDUP, P.OPENSSH)
+                  for offer in OFFERS for banner in BANNERS]
     st = par.pmap(work, tasks)
     par.pmap(work_faults, fault_tasks(tier), stats=st)
     n = len(HIST_SERVERS)
@@ -215,7 +220,8 @@ def run(tier, seed):
         PID, tier, seed, st, t0,
         rule='every subset of %s (%d) x selection style {strict, round-up, OpenSSH with fallback} x offered {sha1, sha256, both} x banner '
              '{OpenSSH, other}, text and JSON; plus every message-level fault (close, stall, reset, garbage, wrong lengths/type, debug, duplicate, '
-             'refuse, timeout) at every probe connection of three representative servers' % (sizes, 2 ** len(sizes)),
+             'refuse, timeout) at every probe connection of three representative servers%s' % (
+                 sizes, 2 ** len(sizes), '; plus the size sets %s (moduli above every requested range)' % (LARGE_SETS,) if tier == 'quick' else ''),
         assumptions=['expected size is read from the scripted server\'s own log of GEX requests and groups handed out',
                      'OpenSSH selection style modelled after dh.c choose_dh()'],
         exhaustive=True, traces_validated=validated, extra={'servers': len(tasks)})
